@@ -1153,4 +1153,8 @@ def run(chk: Check) -> None:
     shared_dest_defaults_rule(chk, "C07-D10", (PATHS,), 1)
     from rules.shared import merge_identity_rule
     merge_identity_rule(chk, "C07-D11", (PATHS,), 1)
+    from rules.shared import single_consumption_rule
+    single_consumption_rule(chk, "C07-D12", (PATHS,), 8)
+    from rules.c10 import d5_no_live_mutation
+    d5_no_live_mutation(chk, "C07-D13", (PATHS,))
     d4_once(chk)
